@@ -1,9 +1,145 @@
-(* C16 -- Fixed-point conversion saturates, is monotone and inverts exactly. *)
+(* C16 -- Fixed-point conversion saturates, is monotone and inverts exactly.
+   Property theorems only; each is closed by `exact` of a lemma of Proofs/FixFloat.v.
+
+   Model: Model/FixFloat.v, rig/type_casts.py over Flocq's IEEE-754 binary64 (round to nearest even).
+   A double x denotes the real number B2R x.  `in_domain n_frac x` is the property's quantifier: x is
+   finite and the scaled value 2.0**n_frac * x computed by the code is again a finite double.
+   `fp_spec signed n_bits n_frac r` = clamp (Ztrunc (r * 2^n_frac)) is the property's first sentence
+   read literally on the real number r (exact scaling, truncation toward zero, nearest end of the
+   range).  The guard -1074 <= n_frac <= 1023 is the range in which 2.0**n_frac is a non-zero double
+   (above it Python raises OverflowError, stated by C16_scale_overflow_error).
+
+   Every theorem below depends, through Flocq's real-number specifications, on the axioms of Coq's
+   classical real numbers only (ClassicalDedekindReals.sig_forall_dec, sig_not_dec,
+   FunctionalExtensionality.functional_extensionality_dep, Classical_Prop.classic). *)
 From Coq Require Import ZArith Reals List Bool.
 From Flocq Require Import Core BinarySingleNaN.
 Require Import Rig.Model.Base Rig.Model.FixFloat Rig.Spec.FixFloat Rig.Proofs.FixFloat.
 Open Scope Z_scope.
 
+(* ---- float -> fixed point (scalar converter) ------------------------------------------------ *)
+
+(* The result IS the exactly scaled value truncated toward zero and clamped to the format. *)
+Theorem C16_fp_exact :
+  forall signed n_bits n_frac (x : b64),
+    1 <= n_bits -> -1074 <= n_frac <= 1023 -> in_domain n_frac x ->
+    float_to_fp signed n_bits n_frac x = Ok (fp_spec signed n_bits n_frac (B2R x)).
+Proof. exact float_to_fp_exact. Qed.
+
+(* never leaves the range *)
+Theorem C16_fp_in_range :
+  forall signed n_bits n_frac (x : b64) v,
+    1 <= n_bits -> -1074 <= n_frac <= 1023 -> in_domain n_frac x ->
+    float_to_fp signed n_bits n_frac x = Ok v ->
+    fmt_min signed n_bits <= v <= fmt_max signed n_bits.
+Proof. exact fp_in_range. Qed.
+
+(* monotone *)
+Theorem C16_fp_monotone :
+  forall signed n_bits n_frac (x y : b64) vx vy,
+    1 <= n_bits -> -1074 <= n_frac <= 1023 -> in_domain n_frac x -> in_domain n_frac y ->
+    (B2R x <= B2R y)%R ->
+    float_to_fp signed n_bits n_frac x = Ok vx -> float_to_fp signed n_bits n_frac y = Ok vy ->
+    vx <= vy.
+Proof. exact fp_monotone. Qed.
+
+(* the scaled, truncated value when that is representable ... *)
+Theorem C16_fp_truncates :
+  forall signed n_bits n_frac (x : b64),
+    1 <= n_bits -> -1074 <= n_frac <= 1023 -> in_domain n_frac x ->
+    fmt_min signed n_bits <= Ztrunc (B2R x * bpow radix2 n_frac) <= fmt_max signed n_bits ->
+    float_to_fp signed n_bits n_frac x = Ok (Ztrunc (B2R x * bpow radix2 n_frac)).
+Proof. exact fp_truncates. Qed.
+
+(* ... and otherwise the nearest end of the range *)
+Theorem C16_fp_saturates :
+  forall signed n_bits n_frac (x : b64),
+    1 <= n_bits -> -1074 <= n_frac <= 1023 -> in_domain n_frac x ->
+    ((IZR (fmt_max signed n_bits) <= B2R x * bpow radix2 n_frac)%R ->
+       float_to_fp signed n_bits n_frac x = Ok (fmt_max signed n_bits)) /\
+    ((B2R x * bpow radix2 n_frac <= IZR (fmt_min signed n_bits))%R ->
+       float_to_fp signed n_bits n_frac x = Ok (fmt_min signed n_bits)).
+Proof. exact fp_saturates. Qed.
+
+(* inside the range: less than one least-significant step (2^-n_frac) from the input *)
+Theorem C16_fp_within_one_lsb :
+  forall signed n_bits n_frac (x : b64),
+    1 <= n_bits -> -1074 <= n_frac <= 1023 -> in_domain n_frac x ->
+    (IZR (fmt_min signed n_bits) <= B2R x * bpow radix2 n_frac <= IZR (fmt_max signed n_bits))%R ->
+    exists v, float_to_fp signed n_bits n_frac x = Ok v /\
+              (Rabs (IZR v * bpow radix2 (- n_frac) - B2R x) < bpow radix2 (- n_frac))%R.
+Proof. exact fp_within_one_lsb. Qed.
+
+(* the error branches of the scalar converter: what lies outside the domain raises *)
+Theorem C16_scale_overflow_error :
+  forall signed n_bits n_frac (x : b64),
+    1 <= n_bits -> 1024 <= n_frac -> float_to_fp signed n_bits n_frac x = OtherError.
+Proof. exact fp_scale_overflow. Qed.
+
+Theorem C16_nonfinite_scaled_error :
+  forall signed n_bits n_frac (x : b64) scale,
+    py_pow2 n_frac = Ok scale -> is_finite (b64_mult scale x) = false ->
+    float_to_fp signed n_bits n_frac x = OtherError.
+Proof. exact fp_nonfinite_error. Qed.
+
+(* ---- fixed point -> float -> fixed point ----------------------------------------------------- *)
+
+(* Every representable fixed-point value that a double can hold comes back unchanged ... *)
+Theorem C16_roundtrip_exact :
+  forall signed n_bits n_frac v,
+    1 <= n_bits <= 1024 -> -1022 <= n_frac <= 1022 -> n_bits - n_frac <= 1024 ->
+    representable signed n_bits v -> generic_format radix2 (FLT_exp (-1074) 53) (IZR v) ->
+    roundtrip signed n_bits n_frac v = Ok v.
+Proof. exact roundtrip_exact. Qed.
+
+(* ... in particular every value below 2^53 in magnitude, hence every value of every format of at
+   most 53 bits *)
+Theorem C16_roundtrip_small :
+  forall signed n_bits n_frac v,
+    1 <= n_bits <= 1024 -> -1022 <= n_frac <= 1022 -> n_bits - n_frac <= 1024 ->
+    representable signed n_bits v -> Z.abs v < 2 ^ 53 ->
+    roundtrip signed n_bits n_frac v = Ok v.
+Proof. exact roundtrip_small. Qed.
+
+Theorem C16_roundtrip_upto_53_bits :
+  forall signed n_bits n_frac v,
+    1 <= n_bits <= 53 -> -1022 <= n_frac <= 1022 -> n_bits - n_frac <= 1024 ->
+    representable signed n_bits v -> roundtrip signed n_bits n_frac v = Ok v.
+Proof. exact roundtrip_upto_53_bits. Qed.
+
+(* The clause "converting ANY representable fixed-point value to float and back returns it unchanged"
+   is false of the code for 64-bit formats: 2^53 + 1 is representable and comes back as 2^53
+   (a double cannot hold it).  Replayed on the code by the harness: known finding
+   `roundtrip-beyond-2^53`. *)
 Theorem C16_roundtrip_refuted :
   representable true 64 (2 ^ 53 + 1) /\ roundtrip true 64 0 (2 ^ 53 + 1) = Ok (2 ^ 53).
 Proof. exact roundtrip_refuted. Qed.
+
+(* ---- array converters ------------------------------------------------------------------------- *)
+
+(* The repaired NumpyFloatToFixConverter agrees element for element with the scalar converter, for
+   every supported width (numpy's clip / cast modelled from observation). *)
+Theorem C16_numpy_agrees :
+  forall signed n_bits n_frac (x : b64),
+    n_bits = 8 \/ n_bits = 16 \/ n_bits = 32 \/ n_bits = 64 ->
+    -1074 <= n_frac <= 1023 -> in_domain n_frac x ->
+    np_float_to_fix signed n_bits n_frac x = float_to_fp signed n_bits n_frac x.
+Proof. exact numpy_agrees. Qed.
+
+(* The code as found (clip, then cast) did not: the clip bound 2^63 - 1 rounds up to 2^63 as a double
+   and the cast of 2^63 wraps (cast modelled as observed).  x = 1e30. *)
+Theorem C16_numpy_agrees_orig_refuted :
+  is_finite x_1e30 = true /\
+  float_to_fp true 64 0 x_1e30 = Ok (2 ^ 63 - 1) /\
+  np_float_to_fix_orig true 64 0 x_1e30 = Ok (- 2 ^ 63) /\
+  float_to_fp false 64 0 x_1e30 = Ok (2 ^ 64 - 1) /\
+  np_float_to_fix_orig false 64 0 x_1e30 = Ok 0.
+Proof. exact numpy_agrees_orig_refuted. Qed.
+
+(* ---- hypotheses are satisfiable ------------------------------------------------------------------ *)
+Example C16_domain_inhabited :
+  in_domain 4 (b64_of_bits 0x3fe0000000000000) /\                     (* 0.5, S3.4: the docstring's example *)
+  float_to_fp true 8 4 (b64_of_bits 0x3fe0000000000000) = Ok 8 /\
+  in_domain 0 x_1e30 /\ in_domain (-4) (b64_of_bits 1) /\             (* huge; smallest subnormal, underflowing scale *)
+  float_to_fp true 8 (-4) (b64_of_bits 1) = Ok 0.
+Proof. exact domain_inhabited. Qed.
